@@ -291,6 +291,7 @@ RULES = [
     ("C07-R6", "MIN / MAX range over the rows that have a value (empty and absent cells take no part)", lambda ctx: r6(ctx)),
     ("X-PIPELINE", "the per-entry pipeline of check_file evaluated on its scenario table (filter, count, row, buffer key, separator, closed output) [shared]", lambda ctx: __import__("cfile").pipeline(ctx)),
     ("X-OUTPUT", "the output phase of list_search_results evaluated on its scenario table (drain order, aggregate row, groups, failing output) [shared]", lambda ctx: __import__("lsr").output_phase(ctx)),
+    ("C08-R4", "inside a group, function arguments are evaluated over that group's rows (nested aggregates) [shared with C08]", lambda ctx: __import__("gcev").nested_scope(ctx)),
 ]
 
 EXPLANATION = (
